@@ -7,8 +7,8 @@ from harness.common import Result
 
 PROP = 'C05'
 DRIVER = 'Socks'
-LEAN_TARGETS = ['TxV.Props.C05', 'TxV.Props.C05b']
-PROP_MODULES = ['TxV.Props.C05', 'TxV.Props.C05b']
+LEAN_TARGETS = ['TxV.Props.C05', 'TxV.Props.C05b', 'TxV.Props.C05c']
+PROP_MODULES = ['TxV.Props.C05', 'TxV.Props.C05b', 'TxV.Props.C05c']
 AUDIT = 'Audit/C05.lean'
 ANCHORS = ['txtorcon/socks.py']
 RULE = ('server streams = method reply (ok / wrong version / wrong method / method 2) ++ request reply (reply codes 0..255, address type '
